@@ -97,7 +97,9 @@ def stage_multi_tan(nitems, parallel, log):
     imgs = [StubImage(f"img{i}", log) for i in range(nitems)]
     proc._collection = StubCollection(imgs)
     proc._descs = [StubDesc() for _ in imgs]
-    proc._tile_parallel(StubPio(), False, parallel)
+    proc._tiling = StubTiling()
+    # through the public wrapper: it resolves the parallelism and hands (pio, cli_progress, parallel) to the stage
+    proc.tile(StubPio(), parallel=parallel, cli_progress=False)
 
 
 def stage_multi_wcs(nitems, parallel, log):
@@ -107,7 +109,8 @@ def stage_multi_wcs(nitems, parallel, log):
     proc._collection = StubCollection(imgs)
     proc._descs = [StubDesc() for _ in imgs]
     proc._combined_wcs = None
-    proc._tile_parallel(StubPio(), lambda *a, **k: None, False, parallel)
+    proc._tiling = StubTiling()
+    proc.tile(StubPio(), lambda *a, **k: None, parallel=parallel, cli_progress=False)
 
 
 # ---------------------------------------------------------------------- trace -> Lean labels
@@ -211,6 +214,8 @@ def main():
     cases = [c for c in pyrgen.cases(rng, 60, 3, exhaustive_depth1=False) if c.spec()[0]]
     extra = [pyrgen.PyrCase(1, "g"), pyrgen.PyrCase(2, "g"), pyrgen.PyrCase(1, "t"), pyrgen.PyrCase(2, "t", None, (1, 1, 0))]
     stage_names = ["visit", "visit", "visit", "transform", "multi_tan", "multi_wcs"]
+    subseq = [pyrgen.PyrCase(2, "t", None, (1, 0, 0)), pyrgen.PyrCase(2, "t", None, (1, 1, 0)), pyrgen.PyrCase(3, "t", None, (2, 3, 3)),
+              pyrgen.PyrCase(2, "t", None, (1, 0, 1)), pyrgen.PyrCase(3, "t", None, (2, 1, 2)), pyrgen.PyrCase(2, "t", None, (1, 1, 1))]
 
     def one(stage, par, chooser, case=None, n=None):
         log = []
@@ -264,6 +269,10 @@ def main():
             chooser = simmp.PCTChooser(rng.randrange(2 ** 31), depth=rng.choice([1, 2, 3, 4]), timeout_prob=rng.choice([0.3, 0.7]))
         if stage == "visit":
             case = rng.choice(cases + extra)
+            if si // len(stage_names) < len(subseq):
+                # one process visits several TOAST sub-pyramids one after another (whatever a pyramid retains from an earlier
+                # restriction must not leak into the next)
+                case = subseq[si // len(stage_names)]
             sim, log, expect, desc = one(stage, par, chooser, case=case)
         else:
             n = rng.choice([0, 1, 1, 2]) if stage == "transform" else rng.choice([1, 2, 3, 5])
